@@ -1,7 +1,7 @@
 #!/usr/bin/env python3
 """Incremental instrumented build of /repo's *current working tree* into /verif/build.
 
-Usage:  build.py [all|core|drv|cli|hint|hcov|fuzz] ...
+Usage:  build.py [all|drv|cli|clip|hint|hcov|fuzz] ...   (clip: the command line tool without sanitizers)
 
 Every object is keyed by a hash over (compiler flags, the source, every file the
 compiler reported reading via -MD), so an edit of /repo rebuilds exactly what it
@@ -33,7 +33,12 @@ SAN = ["-fsanitize=address,undefined", "-fno-sanitize-recover=undefined",
 FLAVOURS = {
     "asan": COMMON + SAN,
     "fuzz": COMMON + SAN + ["-fsanitize=fuzzer-no-link"],
+    # as the project's own RelWithDebInfo build: no sanitizers, no hooks, asserts off.  Used where the
+    # question is whether the *production* build survives (C stack consumption of deep recursion: the
+    # sanitizer's larger frames would overflow several times earlier and raise false alarms).
+    "plain": ["-std=c++14", "-g", "-O2", "-fPIC", "-DNDEBUG", "-Wno-deprecated-declarations", "-I" + LZ, "-I" + GEN, "-I" + REPO],
 }
+PLAIN_CXX = "g++"
 LIBS = ["-ldw", "-lelf"]
 
 
@@ -174,7 +179,7 @@ def lib_sources():
     return srcs
 
 
-def build_objs(flavour, pool):
+def build_objs(flavour, pool, cxx=CXX):
     flags = FLAVOURS[flavour]
     od = os.path.join(B, "obj", flavour)
     jobs = []
@@ -182,7 +187,7 @@ def build_objs(flavour, pool):
     for s in lib_sources():
         o = os.path.join(od, os.path.basename(s)[:-3] + ".o")
         objs.append(o)
-        jobs.append(pool.submit(compile_one, s, o, flags))
+        jobs.append(pool.submit(compile_one, s, o, flags, cxx))
     return objs, jobs
 
 
@@ -199,7 +204,7 @@ def link(out, objs, flags, libs, cxx=CXX):
 def main(argv):
     want = set(argv) or {"all"}
     if "all" in want:
-        want = {"drv", "cli", "hint", "hcov", "fuzz"}
+        want = {"drv", "cli", "clip", "hint", "hcov", "fuzz"}
     os.makedirs(B, exist_ok=True)
     lock = open(os.path.join(B, ".lock"), "w")
     fcntl.flock(lock, fcntl.LOCK_EX)
@@ -217,17 +222,24 @@ def main(argv):
         if "fuzz" in want:
             fuzz_objs, j = build_objs("fuzz", pool)
             jobs += j
+        plain_objs = None
+        if "clip" in want:
+            plain_objs, j = build_objs("plain", pool, PLAIN_CXX)
+            jobs += j
 
-        def cc(name, src, flags):
+        def cc(name, src, flags, cxx=CXX):
             o = os.path.join(B, "obj", "x", name + ".o")
             extra[name] = o
-            jobs.append(pool.submit(compile_one, src, o, flags))
+            jobs.append(pool.submit(compile_one, src, o, flags, cxx))
 
         if "drv" in want:
             cc("zwdrv", os.path.join(VERIF, "drv", "zwdrv.cc"), FLAVOURS["asan"])
         if "cli" in want:
             cc("dwgrep", os.path.join(REPO, "dwgrep", "dwgrep.cc"), FLAVOURS["asan"])
             cc("options", os.path.join(REPO, "dwgrep", "options.cc"), FLAVOURS["asan"])
+        if "clip" in want:
+            cc("dwgrep-plain", os.path.join(REPO, "dwgrep", "dwgrep.cc"), FLAVOURS["plain"], PLAIN_CXX)
+            cc("options-plain", os.path.join(REPO, "dwgrep", "options.cc"), FLAVOURS["plain"], PLAIN_CXX)
         if "fuzz" in want:
             cc("fuzz_query", os.path.join(VERIF, "drv", "fuzz_query.cc"), FLAVOURS["fuzz"])
         if "hint" in want:
@@ -242,6 +254,8 @@ def main(argv):
         link(os.path.join(bindir, "zwdrv"), [extra["zwdrv"]] + asan_objs, SAN, LIBS)
     if "cli" in want:
         link(os.path.join(bindir, "dwgrep"), [extra["dwgrep"], extra["options"]] + asan_objs, SAN, LIBS)
+    if "clip" in want:
+        link(os.path.join(bindir, "dwgrep-plain"), [extra["dwgrep-plain"], extra["options-plain"]] + plain_objs, [], LIBS, PLAIN_CXX)
     if "fuzz" in want:
         link(os.path.join(bindir, "fuzz_query"), [extra["fuzz_query"]] + fuzz_objs, SAN + ["-fsanitize=fuzzer"], LIBS)
     if "hint" in want:
